@@ -394,3 +394,23 @@ n("c17-n-empty-payload-ifexp", "C17", (M + "format_json.py", "        args = rec
 n("c11-n-lock-short-section", "C11", (R + "meta_runner.py", "        self.running = threading.Event()\n", "        self.running = threading.Event()\n        self._table_lock = threading.Lock()\n"), (R + "meta_runner.py", "        return self._runners[flavour].run_payload(payload)", "        with self._table_lock:\n            runner = self._runners[flavour]\n        return runner.run_payload(payload)"), (R + "meta_runner.py", "        try:\n            runner = self._runners[flavour]\n        except KeyError:", "        try:\n            with self._table_lock:\n                runner = self._runners[flavour]\n        except KeyError:"))
 m("c11-lock-across-execute", "C11", "O11.6", (R + "meta_runner.py", "        self.running = threading.Event()\n", "        self.running = threading.Event()\n        self._table_lock = threading.Lock()\n"), (R + "meta_runner.py", "        return self._runners[flavour].run_payload(payload)", "        with self._table_lock:\n            return self._runners[flavour].run_payload(payload)"), (R + "meta_runner.py", "        try:\n            runner = self._runners[flavour]\n        except KeyError:", "        try:\n            with self._table_lock:\n                runner = self._runners[flavour]\n        except KeyError:"))
 m("revert-fix-C03-eager-format", "C03", "O3.4", (R + "trio_runner.py", '            self._logger.warning("discarding payload %s during shutdown", payload)\n            return', '            self._logger.warning(f"discarding payload {payload} during shutdown")\n            return'))
+
+# a repair of the open finding O3.10 (register / launch race) must be silent everywhere -- also for O11.6 (the lock is never held across a wait)
+_LOCKFIX = (
+    (R + "meta_runner.py", "        self.running = threading.Event()\n", "        self.running = threading.Event()\n        self._registration_lock = threading.Lock()\n"),
+    (
+        R + "meta_runner.py",
+        '        try:\n            runner = self._runners[flavour]\n        except KeyError:\n            if self.running.is_set():\n                raise RuntimeError(f"unknown runner {NameRepr(flavour)}") from None\n            self._runner_queues.setdefault(flavour, []).extend(payloads)\n        else:\n            for payload in payloads:\n                self._logger.debug(\n                    "registering payload %s (%s)", NameRepr(payload), NameRepr(flavour)\n                )\n                runner.register_payload(payload)\n',
+        '        with self._registration_lock:\n            try:\n                runner = self._runners[flavour]\n            except KeyError:\n                if self.running.is_set():\n                    raise RuntimeError(f"unknown runner {NameRepr(flavour)}") from None\n                self._runner_queues.setdefault(flavour, []).extend(payloads)\n                return\n        for payload in payloads:\n            self._logger.debug(\n                "registering payload %s (%s)", NameRepr(payload), NameRepr(flavour)\n            )\n            runner.register_payload(payload)\n',
+    ),
+    (R + "meta_runner.py", "        runner_tasks = await self._launch_runners()\n        self.running.set()\n", "        runner_tasks = await self._launch_runners()\n        with self._registration_lock:\n            self.running.set()\n"),
+    (
+        R + "meta_runner.py",
+        "        for flavour, queue in self._runner_queues.items():\n            self.register_payload(*queue, flavour=flavour)\n            queue.clear()\n        self._runner_queues.clear()\n",
+        "        with self._registration_lock:\n            queues, self._runner_queues = self._runner_queues, {}\n        for flavour, queue in queues.items():\n            self.register_payload(*queue, flavour=flavour)\n",
+    ),
+)
+for _p in ("C01", "C02", "C03", "C10", "C11", "C12", "C13"):
+    n("%s-n-register-lock" % _p.lower(), _p, *_LOCKFIX)
+# ... and holding that lock across the runner's blocking hop is what O11.6 exists for
+m("c11-register-lock-across-hop", "C11", "O11.6", _LOCKFIX[0], (R + "meta_runner.py", "            for payload in payloads:\n                self._logger.debug(\n                    \"registering payload %s (%s)\", NameRepr(payload), NameRepr(flavour)\n                )\n                runner.register_payload(payload)\n", "            with self._registration_lock:\n                for payload in payloads:\n                    runner.register_payload(payload)\n"), (R + "meta_runner.py", "        return self._runners[flavour].run_payload(payload)", "        with self._registration_lock:\n            return self._runners[flavour].run_payload(payload)"))
